@@ -352,6 +352,8 @@ class StmtMixin:
             if len(outs) != 1 or len(olds) != 1 or isinstance(outs[0][0], Exc) or isinstance(olds[0][0], Exc) or len(self.obligs) != n0:
                 del self.obligs[n0:]
                 return False
+            if isinstance(self.deref(outs[0][0], outs[0][1]), (VSeq, VTuple, ObjState)):
+                return False  # keep the rope structure of strings / lists: split the path instead
             merged = self.merge(tv, outs[0][0], olds[0][0], st)
         except (Unsupported, KeyError):
             return False
